@@ -413,7 +413,7 @@ fn filtered_base() -> Dictionary {
 }
 
 #[kani::proof]
-#[kani::unwind(12)]
+#[kani::unwind(6)]
 #[kani::stub(std::string::String::from_utf8_lossy, lossy_stub)]
 fn c09_length_set_content() {
     let init: [u8; 3] = kani::any();
@@ -428,7 +428,7 @@ fn c09_length_set_content() {
 }
 
 #[kani::proof]
-#[kani::unwind(12)]
+#[kani::unwind(6)]
 #[kani::stub(std::string::String::from_utf8_lossy, lossy_stub)]
 fn c09_length_set_plain_content() {
     let init: [u8; 3] = kani::any();
@@ -442,7 +442,7 @@ fn c09_length_set_plain_content() {
 }
 
 #[kani::proof]
-#[kani::unwind(12)]
+#[kani::unwind(6)]
 #[kani::stub(std::string::String::from_utf8_lossy, lossy_stub)]
 fn c09_length_decompress() {
     let init: [u8; 3] = kani::any();
@@ -579,13 +579,13 @@ fn chain_single<const ARRAY: bool>(k: u8) {
     std::mem::forget(s);
 }
 #[kani::proof]
-#[kani::unwind(14)]
+#[kani::unwind(6)]
 #[kani::stub(std::string::String::from_utf8_lossy, lossy_stub)]
 fn c09_chain_flate_name_dict() {
     chain_single::<false>(FL);
 }
 #[kani::proof]
-#[kani::unwind(14)]
+#[kani::unwind(6)]
 #[kani::stub(std::string::String::from_utf8_lossy, lossy_stub)]
 fn c09_chain_lzw_array_dict() {
     chain_single::<true>(LZ);
@@ -593,7 +593,7 @@ fn c09_chain_lzw_array_dict() {
 
 /// DecodeParms given as an ARRAY parallel to the filters (ISO 32000-1 7.3.8.2 Table 5): one filter.
 #[kani::proof]
-#[kani::unwind(14)]
+#[kani::unwind(6)]
 #[kani::stub(std::string::String::from_utf8_lossy, lossy_stub)]
 fn c09_chain_parms_array_1() {
     let content: [u8; 4] = kani::any();
@@ -618,7 +618,7 @@ fn c09_chain_parms_array_1() {
 /// Two filters [LZW Flate] with DecodeParms [<<EarlyChange e>> null]: only the first stage gets
 /// parameters; no predictor anywhere.
 #[kani::proof]
-#[kani::unwind(14)]
+#[kani::unwind(6)]
 #[kani::stub(std::string::String::from_utf8_lossy, lossy_stub)]
 fn c09_chain_parms_array_2() {
     let content: [u8; 3] = kani::any();
@@ -668,7 +668,7 @@ fn c09_chain_order_a85_flate() {
 
 /// Order of filters: [Flate LZW Flate] (three stages, no parameters): all tags applied.
 #[kani::proof]
-#[kani::unwind(14)]
+#[kani::unwind(6)]
 #[kani::stub(std::string::String::from_utf8_lossy, lossy_stub)]
 fn c09_chain_order_3() {
     let content: [u8; 3] = kani::any();
@@ -687,7 +687,7 @@ fn c09_chain_order_3() {
 
 /// Unknown filter name in the chain: an error, not a panic and not silently skipped.
 #[kani::proof]
-#[kani::unwind(14)]
+#[kani::unwind(6)]
 #[kani::stub(std::string::String::from_utf8_lossy, lossy_stub)]
 fn c09_chain_unknown_filter() {
     let content: [u8; 2] = kani::any();
@@ -698,5 +698,135 @@ fn c09_chain_unknown_filter() {
     assert!(r.is_err(), "unsupported filter silently ignored");
     kani::cover!(true);
     std::mem::forget(r);
+    std::mem::forget(s);
+}
+
+// ---- folding probes (not registered) ----
+fn burn(x: u8) -> u32 {
+    let mut s = 0u32;
+    let mut i = 0;
+    while i < 12 {
+        s = s.wrapping_mul(31).wrapping_add(x as u32 + i);
+        i += 1;
+    }
+    s
+}
+#[kani::proof]
+#[kani::unwind(14)]
+fn dbg_fold_vec_object() {
+    let x: u8 = kani::any();
+    let v: Vec<Object> = vec![Object::Name(vec![x, 1])];
+    let r = match &v[0] {
+        Object::Name(n) => n.len() as u32,
+        Object::Array(a) => burn(a.len() as u8) + burn(x) + burn(x ^ 1) + burn(x ^ 2),
+        _ => burn(x) + burn(x ^ 3) + burn(x ^ 4),
+    };
+    assert!(r == 2);
+    kani::cover!(true);
+    std::mem::forget(v);
+}
+#[kani::proof]
+#[kani::unwind(14)]
+#[kani::stub(std::string::String::from_utf8_lossy, lossy_stub)]
+fn dbg_fold_dict() {
+    let x: u8 = kani::any();
+    let mut d = Dictionary::new();
+    d.set("Filter", Object::Name(vec![x, 1]));
+    let r = match d.get(b"Filter") {
+        Ok(Object::Name(n)) => n.len() as u32,
+        Ok(Object::Array(a)) => burn(a.len() as u8) + burn(x) + burn(x ^ 1) + burn(x ^ 2),
+        _ => burn(x) + burn(x ^ 3) + burn(x ^ 4),
+    };
+    assert!(r == 2);
+    kani::cover!(true);
+    std::mem::forget(d);
+}
+#[kani::proof]
+#[kani::unwind(14)]
+#[kani::stub(std::string::String::from_utf8_lossy, lossy_stub)]
+fn dbg_fold_filters() {
+    let x: u8 = kani::any();
+    let mut d = Dictionary::new();
+    d.set("Filter", Object::Name(vec![x, 1]));
+    let s = Stream::new(d, vec![1, 2]);
+    let f = s.filters();
+    assert!(matches!(&f, Ok(v) if v.len() == 1));
+    kani::cover!(true);
+    std::mem::forget(f);
+    std::mem::forget(s);
+}
+#[kani::proof]
+#[kani::unwind(14)]
+#[kani::stub(std::string::String::from_utf8_lossy, lossy_stub)]
+fn dbg_fold_stream_get() {
+    let x: u8 = kani::any();
+    let mut d = Dictionary::new();
+    d.set("Filter", Object::Name(vec![x, 1]));
+    let s = Stream::new(d, vec![1, 2]);
+    let r = match s.dict.get(b"Filter") {
+        Ok(Object::Name(n)) => n.len() as u32,
+        _ => burn(x) + burn(x ^ 3) + burn(x ^ 4),
+    };
+    assert!(r == 2);
+    kani::cover!(true);
+    std::mem::forget(s);
+}
+#[kani::proof]
+#[kani::unwind(14)]
+#[kani::stub(std::string::String::from_utf8_lossy, lossy_stub)]
+fn dbg_fold_as_name() {
+    let x: u8 = kani::any();
+    let mut d = Dictionary::new();
+    d.set("Filter", Object::Name(vec![x, 1]));
+    let f = d.get(b"Filter");
+    let r = match f {
+        Ok(o) => {
+            if let Ok(name) = o.as_name() {
+                name.len() as u32
+            } else {
+                99
+            }
+        }
+        Err(_) => 98,
+    };
+    assert!(r == 2);
+    kani::cover!(true);
+    std::mem::forget(d);
+}
+#[kani::proof]
+#[kani::unwind(14)]
+#[kani::stub(std::string::String::from_utf8_lossy, lossy_stub)]
+fn dbg_fold_as_name_vec() {
+    let x: u8 = kani::any();
+    let mut d = Dictionary::new();
+    d.set("Filter", Object::Name(vec![x, 1]));
+    let f = d.get(b"Filter");
+    let r: Result<Vec<&[u8]>> = match f {
+        Ok(o) => {
+            if let Ok(name) = o.as_name() {
+                Ok(vec![name])
+            } else {
+                Err(Error::Unimplemented("x"))
+            }
+        }
+        Err(e) => Err(e),
+    };
+    assert!(matches!(&r, Ok(v) if v.len() == 1));
+    kani::cover!(true);
+    std::mem::forget(r);
+    std::mem::forget(d);
+}
+#[kani::proof]
+#[kani::unwind(4)]
+#[kani::stub(std::string::String::from_utf8_lossy, lossy_stub)]
+fn dbg_fold_filters_concrete() {
+    let x: u8 = kani::any();
+    let mut d = Dictionary::new();
+    d.set("Filter", Object::Name(b"FlateDecode".to_vec()));
+    let s = Stream::new(d, vec![x, 2]);
+    let f = s.filters();
+    assert!(matches!(&f, Ok(v) if v.len() == 1));
+    kani::cover!(true);
+    std::mem::forget(f);
     std::mem::forget(s);
 }
